@@ -23,7 +23,7 @@ func init() {
 			offs := []int64{0, 1, -1, 1 << 10, 1 << 24}
 			return []engine.Phase{
 				{Name: "tile-lists", ShardDepth: 3, Bounds: engine.Bounds{InputDev: -1},
-					Rule: "full product tile vZoom x E x outV x z class x O x hZoom class x list shape {[A],[A,A],[A,B(z+1)],[A,C(other footprint)],[A,B,C],[bad,A],[A,bad],[A,bad,B]}; footprint unchanged, all at outV, per-tile indices = ConvertAltitudekeyToMinMaxZ range and contain the exact interval range, duplicate-free, error => nil result; spatial variant = union of expansions; non-trivial = distinct cases with >= 2 tiles and >= 2 indices per tile",
+					Rule: "full product tile vZoom x E x outV x z class x O x hZoom class x list shape {[A],[A,A],[A,B(z+1)],[A,C(other footprint)],[A,B,C],[bad,A],[A,bad],[A,bad,B],[A,A at hZoom+1],[A at vZoom+1,A]}; footprint unchanged, all at outV, per-tile indices = ConvertAltitudekeyToMinMaxZ range and contain the exact interval range, duplicate-free, error => nil result; spatial variant = union of expansions; non-trivial = distinct cases with >= 2 tiles and >= 2 indices per tile",
 					Body: func(c *engine.Ctx) {
 						vz := zs[c.In("vZoom", len(zs))]
 						e := zs[c.In("E", len(zs))]
@@ -37,7 +37,7 @@ func init() {
 						if hz < 0 || hz > 35 {
 							c.Skip("hzoom-out-of-range")
 						}
-						shape := c.In("shape", 8)
+						shape := c.In("shape", 10)
 						hx := alpha.HIdxSmall(hz)
 						x, y := hx[len(hx)-1], hx[0]
 						type tl struct{ h, x, y, v, z int64 }
@@ -66,13 +66,23 @@ func init() {
 							tiles = []tl{A, bad}
 						case 7:
 							tiles = []tl{A, bad, B}
+						case 8: // same numbers at the next horizontal zoom
+							if hz+1 > 35 {
+								c.Skip("alias-zoom-out-of-range")
+							}
+							tiles = []tl{A, {hz + 1, x, y, vz, z}}
+						case 9: // same numbers at the next vertical zoom
+							if vz+1 > 35 {
+								c.Skip("alias-zoom-out-of-range")
+							}
+							tiles = []tl{{hz, x, y, vz + 1, z}, A}
 						}
 						// budget and expected result from the per-tile conversion
 						want := map[ref.Vox]bool{}
 						expectErr := false
 						total := int64(0)
 						for _, t := range tiles {
-							if t.z < 0 || t.z >= n {
+							if t.z < 0 || t.z >= int64(1)<<uint(t.v) {
 								expectErr = true
 								continue
 							}
@@ -102,7 +112,7 @@ func init() {
 						c.Observe("%s -> %d %v", call, len(got), err)
 						d := map[string]any{"call": call, "err": fmt.Sprint(err), "got_n": len(got)}
 						for _, t := range tiles {
-							if t.z < 0 || t.z >= n {
+							if t.z < 0 || t.z >= int64(1)<<uint(t.v) {
 								continue
 							}
 							lo, hi, err2 := transform.ConvertAltitudekeyToMinMaxZ(t.z, t.v, outV, e, o)
